@@ -236,6 +236,11 @@ class MultiStepReplayBuffer(ReplayBuffer):
         n_step_reward: torch.Tensor = first_transition[self.reward_key]
         n_step_reward = n_step_reward.clone()
 
+        # A window that starts at a terminal step is a 1-step transition, the
+        # following transitions belong to the next episode
+        if first_transition[self.done_key].bool().any():
+            return first_transition
+
         # Get the last next_state and done flag
         for i, transition in enumerate(list(self.n_step_buffer)[1:]):
             # Add discounted reward
